@@ -7,12 +7,16 @@ import (
 	"fmt"
 	"io"
 	"log/slog"
+	"net"
 	"os"
+	"runtime"
+	"runtime/pprof"
 	"sort"
 	"strconv"
 	"strings"
 	"time"
 
+	"google.golang.org/grpc/peer"
 	pb "google.golang.org/protobuf/proto"
 
 	"github.com/oxia-db/oxia/common/channel"
@@ -253,16 +257,67 @@ func (e *DBEngine) Close() {
 // ---------------------------------------------------------------- RF=1 leader controller
 
 type LeaderEngine struct {
-	dir   string
-	kvf   kv.Factory
-	walf  wal.Factory
-	lc    server.LeaderController
-	term  int64
-	next  int
-	wall  map[uint64]int // wall-clock ms of an entry -> logical timestamp of the trace
-	last  uint64
-	dead  bool
-	clock func() uint64
+	dir  string
+	kvf  kv.Factory
+	walf wal.Factory
+	lc   server.LeaderController
+	term int64
+	next int
+	wall map[uint64]int // wall-clock ms of an entry -> logical timestamp of the trace
+	last uint64
+	dead bool
+	id   string // unique peer name: labels the goroutines the controller starts for this engine
+}
+
+type peerAddr string
+
+func (peerAddr) Network() string  { return "verif" }
+func (a peerAddr) String() string { return string(a) }
+
+var _ net.Addr = peerAddr("")
+var engineSeq atomicCounter
+
+type atomicCounter struct {
+	mu chan struct{}
+	n  int
+}
+
+func (c *atomicCounter) next() int {
+	if c.mu == nil {
+		panic("uninitialised")
+	}
+	c.mu <- struct{}{}
+	c.n++
+	n := c.n
+	<-c.mu
+	return n
+}
+
+func init() { engineSeq.mu = make(chan struct{}, 1) }
+
+// ctx returns a context that carries the engine's peer name; the leader controller copies it into the
+// pprof labels of every goroutine it starts for a read, list, range-scan or notification request.
+func (e *LeaderEngine) ctx() (context.Context, context.CancelFunc) {
+	c, cancel := context.WithTimeout(context.Background(), CallTimeout)
+	return peer.NewContext(c, &peer.Peer{Addr: peerAddr(e.id)}), cancel
+}
+
+// quiesce waits until every request goroutine of this engine has exited.  The controller signals
+// completion to the caller before the goroutine closes its iterator; closing the controller while such a
+// goroutine is still running crashes the process inside Pebble (iterator closed after the DB), which
+// is not what these checks are about.
+func (e *LeaderEngine) quiesce() {
+	deadline := time.Now().Add(CallTimeout)
+	needle := []byte(fmt.Sprintf("%q:%q", "peer", e.id))
+	for time.Now().Before(deadline) {
+		var buf bytes.Buffer
+		_ = pprof.Lookup("goroutine").WriteTo(&buf, 1)
+		if !bytes.Contains(buf.Bytes(), needle) {
+			return
+		}
+		runtime.Gosched()
+		time.Sleep(200 * time.Microsecond)
+	}
 }
 
 func NewLeaderEngine() (*LeaderEngine, error) {
@@ -270,7 +325,7 @@ func NewLeaderEngine() (*LeaderEngine, error) {
 	if err != nil {
 		return nil, err
 	}
-	e := &LeaderEngine{dir: dir, wall: map[uint64]int{}}
+	e := &LeaderEngine{dir: dir, wall: map[uint64]int{}, id: fmt.Sprintf("verif-engine-%d", engineSeq.next())}
 	e.kvf, err = kv.NewPebbleKVFactory(&kv.FactoryOptions{DataDir: dir + "/db", CacheSizeMB: 1})
 	if err != nil {
 		return nil, err
@@ -335,6 +390,10 @@ func (e *LeaderEngine) Write(req *proto.WriteRequest, ts int) (int, *proto.Write
 		return off, res, fmt.Errorf("harness: commit offset went from %d to %d, expected offset %d (%v)", before, after, off, err)
 	}
 	e.next++
+	if err != nil {
+		// logged but not applied: there is no notification batch to learn the timestamp from
+		return off, res, err
+	}
 	// learn the timestamp the leader gave the entry
 	if b, nerr := e.Notifications(off); nerr == nil {
 		if _, ok := e.wall[b.Timestamp]; !ok {
@@ -350,6 +409,7 @@ type Rejected struct{ Err error }
 func (r *Rejected) Error() string { return "rejected: " + r.Err.Error() }
 
 func (e *LeaderEngine) Restart() error {
+	e.quiesce()
 	if _, err := guard(func() (int, error) { return 0, e.lc.Close() }); err != nil {
 		return fmt.Errorf("Close: %w", err)
 	}
@@ -365,7 +425,7 @@ func (e *LeaderEngine) Restart() error {
 func (e *LeaderEngine) Get(req *proto.GetRequest) (*proto.GetResponse, error) {
 	return guard(func() (*proto.GetResponse, error) {
 		ch := make(chan *entity.TWithError[*proto.GetResponse], 4)
-		ctx, cancel := context.WithTimeout(context.Background(), CallTimeout)
+		ctx, cancel := e.ctx()
 		defer cancel()
 		e.lc.Read(ctx, &proto.ReadRequest{Shard: pb.Int64(Shard), Gets: []*proto.GetRequest{req}}, concurrent.ReadFromStreamCallback(ch))
 		rs, err := channel.ReadAll(ctx, ch)
@@ -382,7 +442,7 @@ func (e *LeaderEngine) Get(req *proto.GetRequest) (*proto.GetResponse, error) {
 func (e *LeaderEngine) List(req *proto.ListRequest) ([]string, error) {
 	return guard(func() ([]string, error) {
 		ch := make(chan *entity.TWithError[string], 16)
-		ctx, cancel := context.WithTimeout(context.Background(), CallTimeout)
+		ctx, cancel := e.ctx()
 		defer cancel()
 		req.Shard = pb.Int64(Shard)
 		e.lc.List(ctx, req, concurrent.ReadFromStreamCallback(ch))
@@ -393,7 +453,7 @@ func (e *LeaderEngine) List(req *proto.ListRequest) ([]string, error) {
 func (e *LeaderEngine) Scan(req *proto.RangeScanRequest) ([]*proto.GetResponse, error) {
 	return guard(func() ([]*proto.GetResponse, error) {
 		ch := make(chan *entity.TWithError[*proto.GetResponse], 16)
-		ctx, cancel := context.WithTimeout(context.Background(), CallTimeout)
+		ctx, cancel := e.ctx()
 		defer cancel()
 		req.Shard = pb.Int64(Shard)
 		e.lc.RangeScan(ctx, req, concurrent.ReadFromStreamCallback(ch))
@@ -429,7 +489,7 @@ func (c *notifCb) OnComplete(err error) {
 }
 
 func (e *LeaderEngine) Notifications(off int) (*proto.NotificationBatch, error) {
-	ctx, cancel := context.WithTimeout(context.Background(), CallTimeout)
+	ctx, cancel := e.ctx()
 	defer cancel()
 	cb := &notifCb{want: int64(off), got: make(chan *proto.NotificationBatch, 1), done: make(chan error, 1)}
 	e.lc.GetNotifications(ctx, &proto.NotificationsRequest{Shard: Shard, StartOffsetExclusive: pb.Int64(int64(off) - 1)}, cb)
@@ -462,6 +522,7 @@ func (e *LeaderEngine) TsMap() TsMap {
 }
 func (e *LeaderEngine) HasIndexQueries() bool { return true }
 func (e *LeaderEngine) Close() {
+	e.quiesce()
 	if !e.dead && e.lc != nil {
 		_, _ = guard(func() (int, error) { return 0, e.lc.Close() })
 	}
@@ -492,6 +553,21 @@ func (e *LeaderEngine) CreateSession() (int, error) {
 
 // ---------------------------------------------------------------- observation
 
+// ownKey: keys oxia maintains itself (not records written through a request)
+func ownKey(k string) bool {
+	if !strings.HasPrefix(k, OxiaPrefix) {
+		return false
+	}
+	switch k {
+	case "__oxia/commit-offset", "__oxia/last-version-id", "__oxia/term", "__oxia/term-options":
+		return true
+	}
+	if strings.HasPrefix(k, "__oxia/notifications/") || strings.HasPrefix(k, IdxPrefix) {
+		return true
+	}
+	return strings.HasPrefix(k, SessPrefix) && !isSessionKey(k) // shadow keys
+}
+
 func isSessionKey(k string) bool {
 	return strings.HasPrefix(k, SessPrefix) && strings.Count(k, "/") == 2
 }
@@ -502,45 +578,57 @@ func Observe(e Engine, st *Step, probeKeys []string) (problems []string) {
 	tm := e.TsMap()
 	st.Recs, st.Idx, st.Shadow, st.Lv = []Rec{}, []Key{}, []Key{}, -1
 	type rng struct{ s, e string }
-	// user keys below the internal block, the session records, user keys above the block
-	ranges := []rng{{"", OxiaPrefix}, {SessPrefix, SessPrefix + "/"}, {AfterOxia, ""}}
+	// user keys below the internal block, the records inside it, user keys above the block
+	ranges := []rng{{"", OxiaPrefix}, {OxiaPrefix, AfterOxia}, {AfterOxia, ""}}
 	seen := map[string]bool{}
-	for _, r := range ranges {
-		gs, err := e.Scan(&proto.RangeScanRequest{StartInclusive: r.s, EndExclusive: r.e})
-		if err != nil {
-			return append(problems, fmt.Sprintf("RangeScan[%q,%q): %v", r.s, r.e, err))
-		}
+	for ri, r := range ranges {
 		ks, err := e.List(&proto.ListRequest{StartInclusive: r.s, EndExclusive: r.e})
 		if err != nil {
 			return append(problems, fmt.Sprintf("List[%q,%q): %v", r.s, r.e, err))
 		}
-		if len(ks) != len(gs) {
-			problems = append(problems, fmt.Sprintf("List[%q,%q) returns %d keys, RangeScan %d records", r.s, r.e, len(ks), len(gs)))
-		}
-		for i, g := range gs {
-			k := g.GetKey()
-			if i < len(ks) && ks[i] != k {
-				problems = append(problems, fmt.Sprintf("List and RangeScan disagree at position %d: %q vs %q", i, ks[i], k))
+		var gs []*proto.GetResponse
+		if ri != 1 {
+			gs, err = e.Scan(&proto.RangeScanRequest{StartInclusive: r.s, EndExclusive: r.e})
+			if err != nil {
+				return append(problems, fmt.Sprintf("RangeScan[%q,%q): %v", r.s, r.e, err))
 			}
-			if strings.HasPrefix(k, OxiaPrefix) && !isSessionKey(k) {
+			if len(ks) != len(gs) {
+				problems = append(problems, fmt.Sprintf("List[%q,%q) returns %d keys, RangeScan %d records", r.s, r.e, len(ks), len(gs)))
+			}
+		}
+		for i, k := range ks {
+			if ri == 1 {
+				// oxia's own keys are not records (a range-scan over them cannot even be decoded);
+				// anything else under the prefix (session records, records a client put there) is
+				if ownKey(k) {
+					continue
+				}
+			} else if i < len(gs) && gs[i].GetKey() != k {
+				problems = append(problems, fmt.Sprintf("List and RangeScan disagree at position %d: %q vs %q", i, k, gs[i].GetKey()))
 				continue
 			}
-			rec := RecFromGet(k, g, tm)
-			st.Recs = append(st.Recs, rec)
-			seen[k] = true
 			// point read of the same key
 			pg, err := e.Get(&proto.GetRequest{Key: k, IncludeValue: true})
 			if err != nil {
 				problems = append(problems, fmt.Sprintf("Get(%q): %v", k, err))
-			} else if pg.Status != proto.Status_OK {
-				problems = append(problems, fmt.Sprintf("Get(%q) = %v but the key is returned by RangeScan", k, pg.Status))
-			} else if r2 := RecFromGet(k, pg, tm); fmt.Sprint(r2) != fmt.Sprint(rec) {
-				problems = append(problems, fmt.Sprintf("Get(%q) = %+v, RangeScan = %+v", k, r2, rec))
+				continue
 			}
+			if pg.Status != proto.Status_OK {
+				problems = append(problems, fmt.Sprintf("Get(%q) = %v but the key is listed", k, pg.Status))
+				continue
+			}
+			rec := RecFromGet(k, pg, tm)
+			if ri != 1 && i < len(gs) {
+				if r2 := RecFromGet(k, gs[i], tm); fmt.Sprint(r2) != fmt.Sprint(rec) {
+					problems = append(problems, fmt.Sprintf("Get(%q) = %+v, RangeScan = %+v", k, rec, r2))
+				}
+			}
+			st.Recs = append(st.Recs, rec)
+			seen[k] = true
 		}
 	}
 	for _, k := range probeKeys {
-		if seen[k] || (strings.HasPrefix(k, OxiaPrefix) && !isSessionKey(k)) {
+		if seen[k] || ownKey(k) {
 			continue
 		}
 		pg, err := e.Get(&proto.GetRequest{Key: k, IncludeValue: true})
